@@ -415,6 +415,25 @@ TEMPLATE_CHAINS = [
 ]
 
 
+def _deep(n):
+    body = '[Item, Item]'
+    for _ in range(n):
+        body = f'(("(" >> {body} << ")") | [Item, Item])'
+    return body
+
+
+# an inherited rule nested so deeply that the generator moves part of it into helper functions: references inside
+# the helpers are late-bound like all others
+TEMPLATE_CHAINS.append(
+    ([f'grammar {{p}}a\nstart = "d" >> Deep\nDeep = {_deep(16)}\nItem = "a"\n',
+      'grammar {p}b extends {p}a\noverride Item = "b" | super.Item\n',
+      'grammar {p}c extends {p}b\nOther = Deep\n'],
+     [f'start = "d" >> Deep\nDeep = {_deep(16)}\nItem = "a"\n',
+      f'start = "d" >> Deep\nDeep = {_deep(16)}\nItem = "b" | "a"\n',
+      f'start = "d" >> Deep\nDeep = {_deep(16)}\nItem = "b" | "a"\n'],
+     ['d' + '(' * k + x + ')' * k for k in (0, 1, 4, 5, 6, 9, 12, 15, 16) for x in ('ab', 'aa', 'bb')] + ['d(((ab))', 'dab)', '']))
+
+
 def template_chains(seed):
     import realrun as rr
     bad = []
